@@ -1,7 +1,7 @@
 (* C03 -- Weekly statistics equal the accepted reports and never change once archived.
    Statements only; proofs in ServerStats_lemmas.v. *)
 From Coq Require Import ZArith List Bool.
-From GCA Require Import Wrap Bytes Codec Amap Timeslot Server ServerInv ServerReach_lemmas ServerAuth_lemmas ServerStats_lemmas.
+From GCA Require Import Wrap Bytes Codec Amap Timeslot Server ServerInv ServerDisk ServerReach_lemmas ServerAuth_lemmas ServerStats_lemmas ServerFull_lemmas.
 Import ListNotations.
 Open Scope Z_scope.
 
@@ -54,8 +54,10 @@ Section C03.
     forall k s, nth_error (history m0) k = Some s -> st_tso s = week_len * Z.of_nat k.
   Proof. exact (contiguous m0). Qed.
 
-  Theorem c03_immutable ops st k s : no_restart ops ->
+  (* once archived, identical forever: whatever requests (with any parameters), reports, bans,
+     rotations or restarts follow *)
+  Theorem c03_immutable ops st k s : Inv verify st -> Forall op_ok ops ->
     nth_error (history (mm st)) k = Some s ->
-    nth_error (history (mm (run verify sign stats_sb st ops))) k = Some s.
-  Proof. exact (archive_immutable verify sign stats_sb ops st k s). Qed.
+    nth_error (history (mm (Server.run verify sign stats_sb st ops))) k = Some s.
+  Proof. exact (archive_immutable_full verify sign stats_sb ops st k s). Qed.
 End C03.
